@@ -80,8 +80,23 @@ def marlin_temperature(rng):
     if rng.random() < 0.7:
         parts.append(f"@:{rng.randint(0, 127)}")
         parts.append(f"B@:{rng.randint(0, 127)}")
-    if rng.random() < 0.3:
-        parts.append(f"T0:{dec(rng)[0]} /0.00 T1:{dec(rng)[0]} /0.00")
+    if rng.random() < 0.4:
+        # per-tool fields of a multi-extruder report: keys "T0"/"T1" are not the letter T, wherever they
+        # stand in the line and whether or not a plain "T:" field is present
+        multi = f"T0:{dec(rng)[0]} /0.00 T1:{dec(rng)[0]} /0.00"
+        where = rng.choice(["end", "end", "front", "instead-of-T"])
+        if where == "end":
+            parts.append(multi)
+        elif where == "front":
+            parts.insert(0, multi)
+        else:
+            parts = [p for p in parts if not p.startswith("T:")] + [multi]
+            exp.pop("T", None)
+            order = [k for k in order if k != "T"] + ["t"]
+            if not exp:
+                bt, bv, _ = dec(rng)
+                parts.insert(0, f"B:{bt} /0.00")
+                exp["B"] = bv
     line = " ".join(parts)
     lead = rng.random() < 0.6
     if lead:
